@@ -103,6 +103,11 @@ class CoordinationSystem:
             if checkpoint_result != CheckpointResult.PASSED:
                 raise CheckpointError(f"G1 checkpoint failed: {checkpoint_result}")
 
+            # A kill, watchdog pass or shutdown may have ended the operation while a
+            # checkpoint ran: its resources are released, so the work must not run
+            if self.controller.active_operations.get(operation_id) is not ctx:
+                raise CheckpointError("Operation terminated before work")
+
             # Execute work in S phase
             try:
                 result = work_fn()
